@@ -35,12 +35,17 @@ pub open spec fn normalised_upto(cur: Seq<Msg>, inp: Seq<Msg>, k: int) -> bool {
 }
 #[verifier::external_body]
 pub struct CoreRef { x: u8 }
-impl CoreRef { #[verifier::external_body] pub fn is_running(&self) -> bool { unimplemented!() } }
+impl CoreRef {
+  pub uninterp spec fn running(&self) -> bool;
+  #[verifier::external_body] pub fn is_running(&self) -> (r: bool) ensures r == self.running() { unimplemented!() }
+}
 // OutgoingMessageOrchestrator::route_message (proved in unit route): ghost log of the batches handed to it.
 // route_message itself arms no timer; a Timeout error can only come up from a connection whose own SNDTIMEO is positive
 // (unit iface: ScaConnectionIface::send_multipart_owned answers Timeout only after a timed wait, i.e. only for a positive sndtimeo).
 pub struct Orchestrator { pub routed: Ghost<Seq<Seq<Msg>>>, pub timed: Ghost<Seq<Option<nat>>> }
 impl Orchestrator {
+  // the rest of the real type's read-only API (any answer: peers come and go)
+  #[verifier::external_body] pub fn has_connections(&self) -> bool { unimplemented!() }
   pub uninterp spec fn conn_sndtimeo_positive(&self) -> bool;   // the SNDTIMEO the connections were created with is positive
   #[verifier::external_body]
   pub async fn route_message(&mut self, fb: FrameBatch, wait_for_peer: bool) -> (r: Result<(), (FrameBatch, ZmqError)>)
@@ -175,6 +180,8 @@ parts = [
         "final(self).outgoing_orchestrator.routed@ == old(self).outgoing_orchestrator.routed@.push(old(self).pending_send_parts@.push(msg)) && final(self).pending_send_parts@.len() == 0"),
        ("C02:a_message_beyond_the_frame_limit_is_refused_never_routed_in_part",
         "old(self).pending_send_parts@.len() >= 255 ==> r is Err && final(self).outgoing_orchestrator.routed@ == old(self).outgoing_orchestrator.routed@"),
+       ("C02+C13:the_last_frame_always_empties_the_held_back_frames_the_message_is_routed_or_dropped_as_a_whole",
+        "!msg.flags.more && old(self).core.running() ==> final(self).pending_send_parts@.len() == 0"),
        ("C02:only_whole_messages_ever_reach_the_router_path",
         "final(self).outgoing_orchestrator.routed@.len() <= old(self).outgoing_orchestrator.routed@.len() + 1 && (final(self).outgoing_orchestrator.routed@.len() > old(self).outgoing_orchestrator.routed@.len() ==> !msg.flags.more)"),
      ],
@@ -204,6 +211,8 @@ parts = [
        ("C02:the_last_frame_publishes_the_whole_message_as_one_batch",
         "!msg.flags.more && final(self).distributor.sent@.len() > old(self).distributor.sent@.len() ==> "
         "final(self).distributor.sent@ == old(self).distributor.sent@.push(final(self).distributor.sent@.last()) && normalised(final(self).distributor.sent@.last(), old(self).pending_send_parts@.push(msg)) && final(self).pending_send_parts@.len() == 0"),
+       ("C02:the_last_frame_always_empties_the_held_back_frames_the_message_is_published_or_dropped_as_a_whole",
+        "!msg.flags.more && old(self).core.running() ==> final(self).pending_send_parts@.len() == 0"),
        ("C02:a_message_beyond_the_frame_limit_is_refused_never_published_in_part",
         "old(self).pending_send_parts@.len() >= 255 ==> r is Err && final(self).distributor.sent@ == old(self).distributor.sent@"),
      ],
